@@ -22,7 +22,7 @@ theorem gen_add_linear_geq (fuel : Nat) (log : List (List Int)) (lits : List Int
     · simp [h0, h1]
     · simp only [h0, h1, if_false, emit_loop]
       have : ((lits.length : Int) - k + 1).toNat = lits.length - k.toNat + 1 := by omega
-      rw [this]
+      rw [Py.itertoolsR_nonneg _ (by omega), Py.ok_bind, this]
 
 /-- `<=`: the literals are negated and the threshold complemented, then `>=` -/
 theorem gen_add_linear_leq (fuel : Nat) (log : List (List Int)) (lits : List Int) (k : Int)
@@ -42,7 +42,7 @@ theorem gen_add_linear_neq (fuel : Nat) (log : List (List Int)) (lits : List Int
   simp (config := { decide := true }) only [if_true, if_false, Py.ok_bind, Py.len_eq, Linear.neq]
   by_cases hk : k < 0 ∨ k > (lits.length : Int)
   · simp [hk]
-  · rw [if_neg hk, if_neg hk]
+  · rw [if_neg hk, if_neg hk, Py.itertoolsR_nonneg _ (by omega), Py.ok_bind]
     rw [Py.foldlM_ext _ neqStepM (by intro s a; rfl)]
     have hl : combos (Py.Range.toList (Py.Range.mk 0 (lits.length : Int))) k.toNat =
         (combos (List.range lits.length) k.toNat).map (fun f => f.map (fun (i : Nat) => (i : Int))) := by
